@@ -30,6 +30,7 @@ func checkC10(c *Ctx, r *Report) {
 	checkCode93Checksum(c, r)
 	checkExtensions(c, r)
 	checkCode39Constructors(c, r)
+	checkUPCDigitLoops(c, r)
 	r.Note("not decided: that every single substitution is caught (a property of the code's minimum distance over all symbols); zero-suppression inverse beyond the expansion table")
 }
 
@@ -1615,5 +1616,190 @@ func checkCode39Constructors(c *Ctx, r *Report) {
 		}
 		fd, _ := c.funcDeclOf("oned", fn)
 		reportFold(r, c, "M-C39CTOR", key, fd.Pos(), badBy[key])
+	}
+}
+
+// S-UPCDIGITS: what each UPC/EAN middle decoder does with a matched digit
+func checkUPCDigitLoops(c *Ctx, r *Report) {
+	r.Rule("S-UPCDIGITS", "the digit loops of the UPC/EAN middle decoders, folded with upceanReader_decodeDigit replaced by a recorder, for every loop position and every index the pattern table can answer: EAN-8 (both halves) and the right half of EAN-13 match against the ten L patterns only; the left half of EAN-13, UPC-E and the 2- and 5-digit add-ons match against the twenty L-and-G patterns, append the digit index mod 10 and set the parity bit of the position (5-x, 5-x, 1-x, 4-x) exactly when the index is 10 or more (a G pattern): a reversed or even-parity pattern is never taken for a digit where the symbology has none, and the parity word the check values are read from is the one that was printed", 7)
+	lObj := c.lookupObj("oned", "UPCEANReader_L_PATTERNS")
+	lgObj := c.lookupObj("oned", "UPCEANReader_L_AND_G_PATTERNS")
+	type spec struct {
+		fn     string
+		tables []string // per loop: "L" or "LG"
+		top    []int64  // per loop: parity bit of position x is top-x (LG loops)
+		n      []int64  // per loop: number of digits
+	}
+	specs := []spec{
+		{"ean8Reader.decodeMiddle", []string{"L", "L"}, []int64{0, 0}, []int64{4, 4}},
+		{"ean13Reader.decodeMiddle", []string{"LG", "L"}, []int64{5, 0}, []int64{6, 6}},
+		{"upcEReader.decodeMiddle", []string{"LG"}, []int64{5}, []int64{6}},
+		{"UPCEANExtension2Support.decodeMiddle", []string{"LG"}, []int64{1}, []int64{2}},
+		{"UPCEANExtension5Support.decodeMiddle", []string{"LG"}, []int64{4}, []int64{5}},
+	}
+	isDD := func(o types.Object) bool { return isFuncNamed(o, "oned", "upceanReader_decodeDigit") }
+	for _, sp := range specs {
+		fd, p := c.funcDeclOf("oned", sp.fn)
+		if fd == nil {
+			r.AnchorLost("S-UPCDIGITS", "oned."+sp.fn, "method not found")
+			continue
+		}
+		var loops []*ast.ForStmt
+		for _, st := range fd.Body.List {
+			if fs, ok := st.(*ast.ForStmt); ok && len(findCalls(p, fs.Body, isDD)) == 1 {
+				loops = append(loops, fs)
+			}
+		}
+		if len(loops) != len(sp.tables) {
+			r.Undecided("S-UPCDIGITS", "oned."+sp.fn, c.pos(fd.Pos()), fmt.Sprintf("%d digit loops found, expected %d", len(loops), len(sp.tables)))
+			continue
+		}
+		for li, loop := range loops {
+			key := fmt.Sprintf("oned.%s/loop%d", sp.fn, li+1)
+			r.Analysed(key)
+			lr, ok := loopVarRange(p, &ast.ForStmt{Init: loop.Init, Cond: firstConjunct(loop.Cond), Post: loop.Post, Body: loop.Body})
+			call := findCalls(p, loop.Body, isDD)[0]
+			bad := ""
+			if !ok || lr.lo != 0 || lr.hi != sp.n[li] {
+				bad = fmt.Sprintf("?the loop does not run over the %d digit positions", sp.n[li])
+			}
+			if bad == "" && len(call.Args) == 4 {
+				tObj := identObj(p, call.Args[3])
+				want := lObj
+				if sp.tables[li] == "LG" {
+					want = lgObj
+				}
+				if tObj == nil || tObj != want {
+					bad = fmt.Sprintf("the digits are matched against %s; this part of the symbol is printed with the %s patterns", types.ExprString(call.Args[3]), map[string]string{"L": "ten L (odd parity)", "LG": "twenty L and G"}[sp.tables[li]])
+				}
+			}
+			// variables of the body: the result buffer (appended to), the parity word (|=), the offset
+			var parityObj types.Object
+			ast.Inspect(loop.Body, func(n ast.Node) bool {
+				if as, ok := n.(*ast.AssignStmt); ok && as.Tok == token.OR_ASSIGN && len(as.Lhs) == 1 {
+					parityObj = identObj(p, as.Lhs[0])
+				}
+				return true
+			})
+			var bufObj types.Object
+			ast.Inspect(loop.Body, func(n ast.Node) bool {
+				if as, ok := n.(*ast.AssignStmt); ok && len(as.Lhs) == 1 && len(as.Rhs) == 1 {
+					if cl, isC := as.Rhs[0].(*ast.CallExpr); isC && isBuiltin(typeutil.Callee(p.TypesInfo, cl), "append") {
+						bufObj = identObj(p, as.Lhs[0])
+					}
+				}
+				return true
+			})
+			if bad == "" && bufObj == nil {
+				bad = "?the buffer the digits are appended to was not found"
+			}
+			max := int64(10)
+			if sp.tables[li] == "LG" {
+				max = 20
+			}
+			for x := int64(0); x < sp.n[li] && bad == ""; x++ {
+				for bm := int64(0); bm < max && bad == ""; bm++ {
+					env := map[types.Object]*Val{lr.v: vint(x)}
+					// every other local the body touches: integers start at 0, the buffer empty, the counters four ones
+					ast.Inspect(fd.Body, func(n ast.Node) bool {
+						id, ok := n.(*ast.Ident)
+						if !ok {
+							return true
+						}
+						v, isVar := p.TypesInfo.Uses[id].(*types.Var)
+						if !isVar || v.IsField() || v.Pkg() == nil || v.Parent() == v.Pkg().Scope() || env[v] != nil {
+							return true
+						}
+						switch t := v.Type().Underlying().(type) {
+						case *types.Basic:
+							if t.Info()&types.IsInteger != 0 {
+								env[v] = vint(0)
+							}
+						case *types.Slice:
+							if b, isB := t.Elem().Underlying().(*types.Basic); isB && b.Kind() == types.Uint8 {
+								env[v] = &Val{K: VList, Local: true}
+							} else if isB && b.Info()&types.IsInteger != 0 {
+								env[v] = &Val{K: VList, Local: true, L: []*Val{vint(1), vint(1), vint(1), vint(1)}}
+							}
+						case *types.Pointer:
+							env[v] = &Val{K: VStruct, Ptr: true, Fields: map[string]*Val{}}
+						}
+						return true
+					})
+					h := &rpf{unroll: 16}
+					h.multiHook = func(cl *ast.CallExpr, callee types.Object) ([]*Val, bool) {
+						if isDD(callee) {
+							return []*Val{vint(bm), {K: VNil}}, true
+						}
+						return nil, false
+					}
+					h.callHook = func(rr *rpf, cl *ast.CallExpr, callee types.Object) (*Val, bool) {
+						if fn, ok := callee.(*types.Func); ok && (fn.Name() == "GetNextSet" || fn.Name() == "GetNextUnset" || fn.Name() == "GetSize") {
+							return vint(1000), true
+						}
+						return errCtorHook(rr, cl, callee)
+					}
+					rr := &rpf{c: c, p: p, env: env, callHook: h.callHook, multiHook: h.multiHook, unroll: 16, curFn: fd}
+					var err error
+					func() {
+						defer func() {
+							if y := recover(); y != nil {
+								switch e := y.(type) {
+								case *rpfErr:
+									err = e
+								case rpfContinue:
+								default:
+									panic(y)
+								}
+							}
+						}()
+						for _, st := range loop.Body.List {
+							if ret := rr.stmtC(st); ret != nil {
+								err = fmt.Errorf("the loop body returns although the digit was matched")
+								return
+							}
+						}
+					}()
+					if err != nil {
+						bad = fmt.Sprintf("?position %d, pattern index %d: %v", x, bm, err)
+						break
+					}
+					// the appended digit
+					var digit int64 = -1
+					if v := env[bufObj]; v != nil && v.K == VList && len(v.L) == 1 && v.L[0].K == VInt {
+						digit = v.L[0].I
+					}
+					if digit != int64('0')+bm%10 {
+						bad = fmt.Sprintf("position %d, pattern index %d: the character appended is %q, expected %q", x, bm, rune(digit), rune(int64('0')+bm%10))
+						break
+					}
+					if sp.tables[li] == "LG" {
+						if parityObj == nil {
+							bad = "?the parity word is not accumulated with |="
+							break
+						}
+						want := int64(0)
+						if bm >= 10 {
+							want = 1 << uint(sp.top[li]-x)
+						}
+						if got := env[parityObj]; got == nil || got.K != VInt || got.I != want {
+							bad = fmt.Sprintf("position %d, pattern index %d (%s pattern): the parity word becomes %#x, expected %#x", x, bm, map[bool]string{false: "an L", true: "a G"}[bm >= 10], got.I, want)
+						}
+					}
+				}
+			}
+			reportFold(r, c, "S-UPCDIGITS", key, loop.Pos(), bad)
+		}
+	}
+}
+
+// firstConjunct returns the first operand of a && chain (the counting part of `x < n && offset < end`).
+func firstConjunct(e ast.Expr) ast.Expr {
+	for {
+		be, ok := ast.Unparen(e).(*ast.BinaryExpr)
+		if !ok || be.Op != token.LAND {
+			return ast.Unparen(e)
+		}
+		e = be.X
 	}
 }
